@@ -93,7 +93,7 @@ def specs():
                                                          slot("reason", ["wamp.x"])]),
         "Event": ([{"subscription": a, "publication": b} for a, b in zip(IDS, reversed(IDS))],
                   APP + [slot("publisher", [0, 3]), slot("publisher_authid", STRS), slot("publisher_authrole", ["r"]),
-                         slot("topic", ["a.b", ""]), slot("retained", BOOLS), slot("transaction_hash", ["h"]),
+                         slot("topic", ["a.b", "com.example.t1"]), slot("retained", BOOLS), slot("transaction_hash", ["h"]),
                          slot("x_acknowledged_delivery", BOOLS)] + FWD),
         "EventReceived": ([{"publication": a} for a in IDS], []),
         "Call": ([{"request": i, "procedure": u} for i, u in zip(IDS, URIS)],
